@@ -127,7 +127,78 @@ func TestC11HTTP(t *testing.T) {
 		for a := 0; a < nact; a++ {
 			it := items[rapid.IntRange(0, len(items)-1).Draw(t, "item")]
 			r, w, e := has(it.ch.Perms, "pr"), has(it.ch.Perms, "pw"), has(it.ch.Perms, "ev")
-			switch rapid.SampledFrom([]string{"put", "put", "get", "subscribe", "local-change"}).Draw(t, "action") {
+			switch rapid.SampledFrom([]string{"put", "put", "get", "subscribe", "local-change", "put-multi"}).Draw(t, "action") {
+			case "put-multi":
+				// one request with several entries, some of which are refused or name nothing: what is granted
+				// must be granted entry by entry
+				k := rapid.IntRange(2, 4).Draw(t, "entries")
+				var entries, descr []string
+				var involved []*hitem
+				for j := 0; j < k; j++ {
+					x := items[rapid.IntRange(0, len(items)-1).Draw(t, "mitem")]
+					xe, xw := has(x.ch.Perms, "ev"), has(x.ch.Perms, "pw")
+					switch rapid.SampledFrom([]string{"ev", "ev", "value", "unknown-ev", "ev-false"}).Draw(t, "ekind") {
+					case "ev":
+						entries = append(entries, fmt.Sprintf(`{"aid":%d,"iid":%d,"ev":true}`, x.aid, x.ch.ID))
+						descr = append(descr, fmt.Sprintf("ev:true on %s %v", x.ctor, x.ch.Perms))
+						if xe {
+							x.subbed = true
+						} else {
+							x.triedSub = true
+							flags["http:multi/refused-subscription-among-entries"] = true
+						}
+					case "ev-false":
+						entries = append(entries, fmt.Sprintf(`{"aid":%d,"iid":%d,"ev":false}`, x.aid, x.ch.ID))
+						descr = append(descr, fmt.Sprintf("ev:false on %s %v", x.ctor, x.ch.Perms))
+						if xe {
+							x.subbed = false
+						}
+					case "value":
+						b, _ := json.Marshal(differentValue(t, x.ch))
+						entries = append(entries, fmt.Sprintf(`{"aid":%d,"iid":%d,"value":%s}`, x.aid, x.ch.ID, b))
+						descr = append(descr, fmt.Sprintf("value on %s %v", x.ctor, x.ch.Perms))
+						_ = xw
+					case "unknown-ev":
+						entries = append(entries, fmt.Sprintf(`{"aid":%d,"iid":%d,"ev":true}`, x.aid, 900+j))
+						descr = append(descr, "ev:true on an unknown iid")
+						flags["http:multi/unknown-id-among-entries"] = true
+						continue
+					}
+					involved = append(involved, x)
+				}
+				hist = append(hist, "PUT ["+strings.Join(descr, "; ")+"]")
+				if _, err := cl.Do("PUT", "/characteristics", refctl.ContentJSON, []byte(`{"characteristics":[`+strings.Join(entries, ",")+`]}`)); err != nil {
+					t.Fatalf("PUT with %d entries: %v\nhistory: %v", k, err, hist)
+				}
+				cl.DrainEvents()
+				// every characteristic named in the request changes locally: events exactly for the granted subscriptions
+				seen := map[*hitem]bool{}
+				for _, x := range involved {
+					if seen[x] {
+						continue
+					}
+					seen[x] = true
+					v := differentValue(t, x.ch)
+					x.ch.UpdateValue(v)
+					hist = append(hist, fmt.Sprintf("application sets %s perms=%v to %#v", x.ctor, x.ch.Perms, v))
+				}
+				if _, err := cl.Do("GET", fmt.Sprintf("/characteristics?id=%d.%d", bridge.ID, bridge.Info.Name.ID), "", nil); err != nil {
+					t.Fatalf("sync: %v\nhistory: %v", err, hist)
+				}
+				for _, en := range eventEntries(cl.DrainEvents()) {
+					for x := range seen {
+						if en.Aid == x.aid && en.Iid == x.ch.ID {
+							if !has(x.ch.Perms, "ev") || !x.subbed {
+								t.Fatalf("EVENT for %s (perms %v, subscription granted: %v) after a request with several entries: %v\nhistory: %v", x.ctor, x.ch.Perms, x.subbed, en, hist)
+							}
+							if !has(x.ch.Perms, "pr") && en.Value != nil {
+								t.Fatalf("EVENT for %s (perms %v, not readable) reveals the value %#v\nhistory: %v", x.ctor, x.ch.Perms, en.Value, hist)
+							}
+						}
+					}
+				}
+				flags["http:multi-entry-request"] = true
+				missing = true
 			case "put":
 				v := differentValue(t, it.ch)
 				before, calls := it.ch.Value, it.calls
@@ -251,6 +322,17 @@ func TestC11HTTP(t *testing.T) {
 					}
 				} else if len(evs) > 0 {
 					flags["http:event/delivered"] = true
+					if !r {
+						// subscribed to a characteristic that permits events but no reads: the notification
+						// says that it changed, it must not say to what
+						for _, en := range eventEntries(evs) {
+							if en.Aid == it.aid && en.Iid == it.ch.ID && en.Value != nil {
+								t.Fatalf("EVENT for %s (perms %v, not readable) reveals the value %#v\nhistory: %v", it.ctor, it.ch.Perms, en.Value, hist)
+							}
+						}
+						flags["http:event/unreadable-characteristic"] = true
+						missing = true
+					}
 				}
 			}
 		}
@@ -260,6 +342,25 @@ func TestC11HTTP(t *testing.T) {
 		}
 		stats.Case(stats.Hash("http", base, n, strings.Join(hist, ";")), missing, cls, func() interface{} { return map[string]interface{}{"history": hist} })
 	})
+}
+
+type eventEntry struct {
+	Aid, Iid uint64
+	Value    interface{}
+}
+
+// eventEntries flattens the characteristic entries of EVENT messages.
+func eventEntries(evs []*refctl.Response) []eventEntry {
+	var out []eventEntry
+	for _, ev := range evs {
+		var doc struct {
+			Characteristics []eventEntry `json:"characteristics"`
+		}
+		if json.Unmarshal(ev.Body, &doc) == nil {
+			out = append(out, doc.Characteristics...)
+		}
+	}
+	return out
 }
 
 func defaultFor(format string) interface{} {
